@@ -30,18 +30,55 @@ Proof.
   destruct (subs_reregister e' r _) as [[[rr' r'] f''] e'']. cbn [fst] in *. apply IH. lia.
 Qed.
 
+Lemma subs_register_factory subs : forall e f, t_sub f + N.of_nat (length subs) < U16 ->
+  fst (fst (fst (subs_register e subs f))) = RROk -> t_sub (snd (fst (subs_register e subs f))) = t_sub f + N.of_nat (length subs).
+Proof.
+  induction subs as [|g r IH]; intros e f Hb; cbn [subs_register]; [cbn; lia|].
+  cbn [length] in Hb. rewrite ftoken_spec by lia.
+  destruct (gen_register e g f) as [[ok g'] e']. destruct ok; [|cbn; discriminate].
+  specialize (IH e' (mkTok (t_id f) (t_ver f) (t_sub f + 1))). cbn [t_sub] in IH.
+  destruct (subs_register e' r _) as [[[rr' r'] f''] e'']. cbn [fst snd] in *. intros H. rewrite IH by (try exact H; lia). cbn [length]. lia.
+Qed.
+Lemma subs_reregister_factory subs : forall e f, t_sub f + N.of_nat (length subs) < U16 ->
+  fst (fst (fst (subs_reregister e subs f))) = RROk -> t_sub (snd (fst (subs_reregister e subs f))) = t_sub f + N.of_nat (length subs).
+Proof.
+  induction subs as [|g r IH]; intros e f Hb; cbn [subs_reregister]; [cbn; lia|].
+  cbn [length] in Hb. rewrite ftoken_spec by lia.
+  destruct (gen_reregister e g f) as [[ok g'] e']. destruct ok; [|cbn; discriminate].
+  specialize (IH e' (mkTok (t_id f) (t_ver f) (t_sub f + 1))). cbn [t_sub] in IH.
+  destruct (subs_reregister e' r _) as [[[rr' r'] f''] e'']. cbn [fst snd] in *. intros H. rewrite IH by (try exact H; lia). cbn [length]. lia.
+Qed.
+Lemma timer_register_no_panic e tm f : t_sub f + 1 < U16 -> fst (fst (timer_register e tm f)) <> RRPanic.
+Proof.
+  intros H1. unfold timer_register. destruct (timer_unregister e tm) as [t1 e1]. destruct (tm_dl t1); [|discriminate].
+  rewrite (ftoken_spec _ H1). destruct (wh_insert _ _ _). discriminate.
+Qed.
+Lemma timer_reregister_no_panic e tm f : t_sub f + 1 < U16 -> fst (fst (timer_reregister e tm f)) <> RRPanic.
+Proof.
+  intros H1. unfold timer_reregister. destruct (tm_en tm); [|discriminate]. destruct (timer_unregister e tm) as [t1 e1].
+  apply timer_register_no_panic. exact H1.
+Qed.
+
 Definition small_src (x : src) : Prop :=
-  match x with SComp _ _ subs => N.of_nat (length subs) + 2 < U16 | _ => True end.
+  match x with SComp _ _ subs _ => N.of_nat (length subs) + 3 < U16 | _ => True end.
 
 Lemma src_register_no_panic e x t : small_src x -> fst (fst (src_register e x (factory_new t))) <> RRPanic.
 Proof.
   intros Hs.
   assert (H1 : t_sub (factory_new t) + 1 < U16) by (change (t_sub (factory_new t)) with 0; unfold U16; lia).
-  destruct x as [lc own subs|g|tm|c g]; unfold src_register.
+  destruct x as [lc own subs tmr|g|tm|c g]; unfold src_register.
   - rewrite (ftoken_spec _ H1).
     pose proof (subs_register_no_panic subs e (mkTok (t_id (factory_new t)) (t_ver (factory_new t)) (t_sub (factory_new t) + 1))) as P.
     cbn [t_sub] in P.
-    destruct (subs_register e subs _) as [[[r s'] f'] e']. cbn [fst] in *. apply P. unfold small_src in Hs. change (t_sub (factory_new t)) with 0. unfold U16 in *. lia.
+    pose proof (subs_register_factory subs e (mkTok (t_id (factory_new t)) (t_ver (factory_new t)) (t_sub (factory_new t) + 1))) as Q.
+    cbn [t_sub] in Q. change (t_sub (factory_new t)) with 0 in *. unfold small_src in Hs.
+    destruct (subs_register e subs _) as [[[r s'] f'] e']. cbn [fst snd] in *.
+    assert (Hlt : 0 + 1 + N.of_nat (length subs) < U16) by (unfold U16 in *; lia).
+    specialize (P Hlt). specialize (Q Hlt).
+    destruct r; [|cbn; destruct tmr; discriminate|contradiction].
+    destruct tmr as [tm|]; [|cbn; discriminate].
+    pose proof (timer_register_no_panic e' tm f') as T. rewrite (Q eq_refl) in T.
+    destruct (timer_register e' tm f') as [[r2 tm'] e'']. cbn [fst] in *. apply T. unfold U16 in *. lia.
   - rewrite (ftoken_spec _ H1). unfold one_gen. destruct (gen_register _ _ _) as [[ok g'] e']. destruct ok; discriminate.
   - unfold timer_register. destruct (timer_unregister e tm) as [t1 e1]. destruct (tm_dl t1); [|discriminate].
     rewrite (ftoken_spec _ H1). destruct (wh_insert _ _ _). discriminate.
@@ -51,11 +88,19 @@ Lemma src_reregister_no_panic e x t : small_src x -> fst (fst (src_reregister e 
 Proof.
   intros Hs.
   assert (H1 : t_sub (factory_new t) + 1 < U16) by (change (t_sub (factory_new t)) with 0; unfold U16; lia).
-  destruct x as [lc own subs|g|tm|c g]; unfold src_reregister.
+  destruct x as [lc own subs tmr|g|tm|c g]; unfold src_reregister.
   - rewrite (ftoken_spec _ H1).
     pose proof (subs_reregister_no_panic subs e (mkTok (t_id (factory_new t)) (t_ver (factory_new t)) (t_sub (factory_new t) + 1))) as P.
     cbn [t_sub] in P.
-    destruct (subs_reregister e subs _) as [[[r s'] f'] e']. cbn [fst] in *. apply P. unfold small_src in Hs. change (t_sub (factory_new t)) with 0. unfold U16 in *. lia.
+    pose proof (subs_reregister_factory subs e (mkTok (t_id (factory_new t)) (t_ver (factory_new t)) (t_sub (factory_new t) + 1))) as Q.
+    cbn [t_sub] in Q. change (t_sub (factory_new t)) with 0 in *. unfold small_src in Hs.
+    destruct (subs_reregister e subs _) as [[[r s'] f'] e']. cbn [fst snd] in *.
+    assert (Hlt : 0 + 1 + N.of_nat (length subs) < U16) by (unfold U16 in *; lia).
+    specialize (P Hlt). specialize (Q Hlt).
+    destruct r; [|cbn; destruct tmr; discriminate|contradiction].
+    destruct tmr as [tm|]; [|cbn; discriminate].
+    pose proof (timer_reregister_no_panic e' tm f') as T. rewrite (Q eq_refl) in T.
+    destruct (timer_reregister e' tm f') as [[r2 tm'] e'']. cbn [fst] in *. apply T. unfold U16 in *. lia.
   - rewrite (ftoken_spec _ H1). unfold one_gen. destruct (gen_reregister _ _ _) as [[ok g'] e']. destruct ok; discriminate.
   - destruct (tm_en tm); [|discriminate]. destruct (timer_unregister e tm) as [t1 e1].
     unfold timer_register. destruct (timer_unregister e1 t1) as [t2 e2]. destruct (tm_dl t2); [|discriminate].
@@ -161,7 +206,7 @@ Proof.
   - (* setdl *)
     unfold do_setdl in Hp. destruct (objs s h) as [ob|]; [|cbn in Hp; congruence].
     destruct (negb (o_ext ob)); [cbn in Hp; congruence|].
-    destruct (is_running s h); [reflexivity|]. destruct (o_src ob); cbn in Hp; rewrite ?halted_set_obj_src in Hp; congruence.
+    destruct (is_running s h); [reflexivity|]. destruct (o_src ob) as [lc own subs [tm|]|g|tm|c g]; cbn in Hp; rewrite ?halted_set_obj_src in Hp; congruence.
   - (* intoinner *)
     unfold do_intoinner in Hp. destruct (objs s h) as [ob|]; [|cbn in Hp; congruence].
     destruct (negb (o_ext ob)); [cbn in Hp; congruence|].
